@@ -195,13 +195,25 @@ func (s schema) types() []*colType {
 	return ts
 }
 
+type ptype struct {
+	cols   []reflect.Type
+	prefix int
+}
+
+func (p ptype) NumOut() int            { return len(p.cols) }
+func (p ptype) Out(i int) reflect.Type { return p.cols[i] }
+func (p ptype) Prefix() int            { return p.prefix }
+
 func (s schema) sliceType(prefix int) slicetype.Type {
 	ts := s.types()
 	rt := make([]reflect.Type, len(ts))
 	for i := range ts {
 		rt[i] = ts[i].Typ
 	}
-	return slicetype.New(rt...)
+	if prefix < 1 {
+		prefix = 1
+	}
+	return ptype{rt, prefix}
 }
 
 var frameSchemas = []schema{
